@@ -438,6 +438,14 @@ def tree_lookup(chk: Check, f: FuncInfo, site: TreeSite, sel: str, key: str, adj
     if not hk["tree"]:
         chk.ob(rule, k + ":index-lookup", True, f.loc(), "helper does not search a tree", 0)
         return
+    # an exit in front of the search ("nothing can match") must imply an empty answer
+    for c_, v_ in guards:
+        if adjusted and c_ == ("cmp", "Is", ("attr", ("self",), "address"), ("none",)) and v_ == ("empty",):
+            continue
+        verdict, why = _judge_guard(c_, sel, adjusted, f.param_names()[1]) if v_ == ("empty",) else (None, "returns %s" % show(v_))
+        chk.ob(rule, k + ":exit-before-search-implies-empty-answer", verdict is True, f.loc(),
+               "%s leaves before searching its index under a condition that does not imply an empty answer: %s"
+               % (k, why), 3, undecided=verdict is None)
     kw0 = dict(t[3]) if len(t) > 3 else {}
     if hk["key"] is None:
         # the implementation called directly: the key space is the getter it is handed
@@ -475,6 +483,82 @@ def tree_lookup(chk: Check, f: FuncInfo, site: TreeSite, sel: str, key: str, adj
         zero = kw.get("adjustment") in (("const", 0), ("num", 0), ("int", 0), 0)
         chk.ob(rule, k + ":no-adjustment", not extra and ("adjustment" not in kw or zero), f.loc(),
                "%s must not shift its query" % k, 1)
+
+
+def _judge_guard(c: tuple, sel: str, adjusted: bool, param: str) -> Tuple[Optional[bool], str]:
+    """does the condition imply that a lookup over the owner's members finds nothing?  The owner's
+    extent is [self.address, self.address + self.size] (members of size zero may sit at the very
+    end, where an 'at' query still finds them).  True sound, False unsound, None not understood."""
+    if c[0] == "bool" and c[1] == "Or":
+        vs = [_judge_guard(x, sel, adjusted, param) for x in c[2]]
+        bad = [v for v in vs if v[0] is False]
+        unk = [v for v in vs if v[0] is None]
+        return (False, bad[0][1]) if bad else (None, unk[0][1]) if unk else (True, "")
+    if c[0] == "bool" and c[1] == "And":
+        # (tests that something is known - 'x is not None' - neither help nor hurt)
+        rest = [x for x in c[2] if not (x[0] == "cmp" and x[1] == "IsNot" and x[3] == ("none",))]
+        if not rest:
+            return False, show(c)
+        vs = [_judge_guard(x, sel, adjusted, param) for x in rest]
+        if any(v[0] is True for v in vs):
+            return True, ""
+        unk = [v for v in vs if v[0] is None]
+        return (None, unk[0][1]) if unk else (False, vs[0][1])
+    if c[0] == "not":
+        return None, show(c)
+    if not adjusted and c == ("cmp", "Is", ("attr", ("self",), "address"), ("none",)):
+        return False, "self.address is None whenever one member has no address: the others are still to be found"
+    if c[0] == "cmp" and c[1] == "IsNot" and c[3] == ("none",) and not adjusted:
+        return False, "%s says nothing about where the members are" % show(c)
+    if c[0] != "cmp" or c[1] not in ("Lt", "LtE", "Gt", "GtE") or adjusted:
+        return None, show(c)
+
+    class Out(Exception):
+        pass
+
+    def lin(t: tuple) -> Tuple[Dict[str, int], int]:
+        if t[0] in ("const", "num", "int") and isinstance(t[1], int) and not isinstance(t[1], bool):
+            return {}, t[1]
+        if t == ("attr", ("self",), "address"):
+            return {"ADDR": 1}, 0
+        if t == ("attr", ("self",), "size"):
+            return {"SIZE": 1}, 0
+        if t[0] == "attr" and t[2] in ("start", "stop") and t[1] in (
+                ("call", ("name", "get_desired_range"), (("param", param),)), ("param", param)):
+            return {t[2].upper(): 1}, 0
+        if t[0] == "binop" and t[1] in ("Add", "Sub"):
+            a, b = lin(t[2]), lin(t[3])
+            sg = 1 if t[1] == "Add" else -1
+            d = dict(a[0])
+            for k_, v_ in b[0].items():
+                d[k_] = d.get(k_, 0) + sg * v_
+            return {k_: v_ for k_, v_ in d.items() if v_}, a[1] + sg * b[1]
+        raise Out()
+    try:
+        l_, r_ = lin(c[2]), lin(c[3])
+    except Out:
+        return None, show(c)
+    d = dict(l_[0])
+    for k_, v_ in r_[0].items():
+        d[k_] = d.get(k_, 0) - v_
+    d = {k_: v_ for k_, v_ in d.items() if v_}
+    k0 = l_[1] - r_[1]
+    op = c[1]
+    flip = {"Lt": "Gt", "LtE": "GtE", "Gt": "Lt", "GtE": "LtE"}
+    q = "START" if "START" in d else "STOP" if "STOP" in d else None
+    if q is None:
+        return None, show(c)
+    if d[q] == -1:
+        d, k0, op = {k_: -v_ for k_, v_ in d.items()}, -k0, flip[op]
+    if q == "STOP" and d == {"STOP": 1, "ADDR": -1} and op in ("LtE", "Lt"):
+        cc = -k0 if op == "LtE" else -k0 - 1           # STOP <= ADDR + cc
+        return cc <= 0, "STOP <= self.address %+d (an empty answer needs +0 or less)" % cc
+    if q == "START" and d == {"START": 1, "ADDR": -1, "SIZE": -1} and op in ("GtE", "Gt"):
+        cc = -k0 if op == "GtE" else -k0 + 1           # START >= ADDR + SIZE + cc
+        need = 1 if sel == "at" else 0
+        return cc >= need, "START >= self.address + self.size %+d (an empty answer needs %+d or more: a member " \
+                           "of size zero may sit at the very end)" % (cc, need)
+    return None, show(c)
 
 
 def delegation(chk: Check, cls: ClassInfo, name: str, over_ok: List[tuple], rule: str,
